@@ -245,17 +245,17 @@ func simplex(initialBasic []int, c []float64, A mat.Matrix, b []float64, tol flo
 		tmp2.MulVec(an.T(), &tmp)
 		floats.SubTo(r, cn, data)
 
+		for i, v := range r {
+			if math.Abs(v) < rRoundTol {
+				r[i] = 0
+			}
+		}
+
 		// Replace the most negative element in the simplex. If there are no
 		// negative entries then the optimal solution has been found.
 		minIdx := floats.MinIdx(r)
 		if r[minIdx] >= -tol {
 			break
-		}
-
-		for i, v := range r {
-			if math.Abs(v) < rRoundTol {
-				r[i] = 0
-			}
 		}
 
 		// Compute the moving distance.
